@@ -21,6 +21,7 @@ ACTIONS = ['I do nothing', 'I send event go', 'I send event go with n=2', 'I sen
 THENS = ['state B is entered', 'state B is not entered', 'state B is exited', 'state A is not exited',
          'state A is active', 'state C is not active', 'state nope is active',
          'event out is fired', 'event out is fired with v=5', 'event out is not fired', 'no event is fired',
+         'event out is fired\n  | parameter | value |\n  | v | 5 |\n  | w | 16 |',
          'variable x equals 3', 'variable x does not equal 3', 'variable nope equals 1',
          'expression "x == 3" holds', 'expression "x == 3" does not hold',
          'statechart is in a final configuration', 'statechart is not in a final configuration']
@@ -39,8 +40,8 @@ WITNESSES = ['then_passed', 'then_failed', 'then_errored', 'symbolic_variable_as
              'quiescent_when_block', 'second_block_forgets_first', 'parameter_assertion_with_two_events']
 STUBS = ['behave Context -> SimpleNamespace with execute_steps dispatching through behave.step_registry',
          'interpreter_klass injects initial_context {X0: symbolic integer, W: symbolic reals}']
-ASSUMPTIONS = ['one fixed chart (states A, B, C, final F; variable x; event out sent with v=x; timeout after(5) from A)',
-               'step texts come from the pools listed in the module (documented spelling)', 'Gherkin tables not used']
+ASSUMPTIONS = ['one fixed chart (states A, B, C, final F; variable x; event out sent with v=x, w=x+1; timeout after(5) from A)',
+               'step texts come from the pools listed in the module (documented spelling); one step uses a Gherkin table']
 OUTSIDE = ['behave feature-file parsing, runner, formatters and exit codes (exercised only by concrete end-to-end replays)',
            'user-defined steps / map_action / map_assertion', 'charts other than the fixed one']
 YAML = '''statechart:
@@ -56,7 +57,7 @@ YAML = '''statechart:
         event: go
         action: |
           x = x + getattr(event, 'n', 1)
-          send('out', v=x)
+          send('out', v=x, w=x + 1)
       - target: C
         guard: after(5)
     - name: B
@@ -69,7 +70,7 @@ YAML = '''statechart:
         event: go
         action: |
           x = x + 10
-          send('out', v=x)
+          send('out', v=x, w=x + 1)
     - name: C
       transitions:
       - target: A
@@ -199,8 +200,13 @@ class Driver:
             return not sent
         if text.startswith('event '):
             outs = [e for e in sent if e.name == w[1]]
-            if text.endswith('is not fired'):
+            if text.split('\n')[0].endswith('is not fired'):
                 return not outs
+            if '|' in text:      # Gherkin table: every listed parameter must match on ONE event
+                rows = [r.strip().strip('|').split('|') for r in text.split('\n')[2:]]
+                want = {r[0].strip(): int(r[1]) for r in rows}
+                return Or([And([Eq(getattr(e, k, None), v) if getattr(e, k, None) is not None else False
+                                for k, v in want.items()]) for e in outs] + [False])
             if 'with' in w:
                 k, v = w[-1].split('=')
                 return Or([Eq(getattr(e, k, None), int(v)) if getattr(e, k, None) is not None else False for e in outs] + [False])
